@@ -31,7 +31,7 @@ def _run_shard(binary, wdir, idx, scripts):
         try:
             p = subprocess.run([binary, "-test.run", "^TestRun$", "-test.count", "1", "-test.timeout", "0"],
                                env=env, stdout=subprocess.PIPE, stderr=subprocess.STDOUT, text=True,
-                               timeout=int(os.environ.get("VERIF_SHARD_TIMEOUT", "600")))
+                               timeout=int(os.environ.get("VERIF_SHARD_TIMEOUT", "180")))
             rc, outtxt = p.returncode, p.stdout
             timed_out = False
         except subprocess.TimeoutExpired as e:
